@@ -82,6 +82,9 @@ Print Assumptions C04_sdes_count_exceeds_any_length.
 (* BEGIN source-translation (generated by tools/mksourceprops.py; do not edit by hand) *)
 (* Unmarshal of each type, as translated from the Go source text on this run, is the model function the theorems above are about (zero-valued receiver; the _gen/_any forms say what a receiver that already holds data contributes).
    Gen/Funcs.v (module GoSrc) is written by srcgen/trans.go from /repo on every run; Lib/GoSem.v gives the meaning of its primitives. *)
+From RTCP Require Import Proofs.Tactics Lib.GoSem Lib.GoFloat Gen.FuncsRemb Proofs.GoSemFacts
+  Model.Header Model.Reports Model.Remb Model.Packet Proofs.HeaderProofs Proofs.SourceEquiv Proofs.SrcConv Proofs.EncCcfbRemb
+  Spec.Enc Spec.Laws Check.GoOpaque.
 From RTCP Require Import Proofs.Tactics Lib.GoSem Gen.Funcs Check.GoOpaque Proofs.GoSemFacts Proofs.HeaderProofs
   Model.Header Model.Reports Model.Sdes Model.ByeApp Model.Feedback Model.Twcc Model.Ccfb Model.Remb Model.Xr Model.Packet
   Spec.Enc Spec.XrSpec Spec.Laws Proofs.Dgram Proofs.Assemble Proofs.Guards Proofs.PacketLevel Proofs.Reencode
@@ -97,11 +100,10 @@ From RTCP Require Import Proofs.Tactics Lib.GoSem Gen.Funcs Check.GoOpaque Proof
   Proofs.SourceEquiv Proofs.SrcConv Proofs.SourceCorollaries Proofs.SourceSR Proofs.SourceRR Proofs.SourceSdes Proofs.SourceByeApp
   Proofs.SourceFeedback1 Proofs.SourceFeedback2 Proofs.SourceCcfb Proofs.SourceTwccEnc Proofs.SourceTwccDec
   Proofs.SourcePacket Proofs.SourceCompound Proofs.SourceCompoundClosed Proofs.SourceTheorems.
-From RTCP Require Import Lib.Base Lib.GoSem Gen.Consts Gen.Funcs Model.Header Model.Reports Model.Sdes Model.ByeApp Model.Feedback Model.Twcc Model.Ccfb Model.Packet Proofs.SourceEquiv Proofs.SrcConv Proofs.SourceByeApp Proofs.SourceCcfb Proofs.SourceFeedback1 Proofs.SourceFeedback2 Proofs.SourceRR Proofs.SourceSR Proofs.SourceSdes Proofs.SourceTwccEnc Proofs.SourceTwccDec Proofs.SourcePacket Proofs.SourceCompound Proofs.SourceCompoundClosed Proofs.SourceTheorems Proofs.SourceTheorems2.
+From RTCP Require Import Lib.Base Lib.GoSem Gen.Consts Gen.Funcs Model.Header Model.Reports Model.Sdes Model.ByeApp Model.Feedback Model.Twcc Model.Ccfb Model.Packet Proofs.SourceEquiv Proofs.SrcConv Proofs.SourceByeApp Proofs.SourceCcfb Proofs.SourceFeedback1 Proofs.SourceFeedback2 Proofs.SourceRR Proofs.SourceRemb Proofs.SourceSR Proofs.SourceSdes Proofs.SourceTwccEnc Proofs.SourceTwccDec Proofs.SourcePacket Proofs.SourceCompound Proofs.SourceCompoundClosed Proofs.SourceTheorems Proofs.SourceTheorems2.
 Module C04_SourceByeApp.
 Import Proofs.SourceByeApp.
 Local Open Scope Z_scope.
-Local Open Scope N_scope.
 Theorem C04_source_Goodbye_Unmarshal_gen : forall g0 b, GoSrc.Goodbye_Reason g0 = [] ->
   GoSrc.Goodbye_Unmarshal g0 b = res_map src_bye (BYE_unmarshal b).
 Proof. exact src_Goodbye_Unmarshal_gen. Qed.
@@ -221,6 +223,23 @@ Theorem C04_source_ReceiverReport_Unmarshal : forall b,
 Proof. exact src_ReceiverReport_Unmarshal. Qed.
 Print Assumptions C04_source_ReceiverReport_Unmarshal.
 End C04_SourceRR.
+Module C04_SourceRemb.
+Import Proofs.SourceRemb.
+Local Open Scope Z_scope.
+Theorem C04_source_REMB_Unmarshal : forall r buf,
+  GoSrcRemb.ReceiverEstimatedMaximumBitrate_Unmarshal r buf = res_map src_remb (REMB_unmarshal buf).
+Proof. exact src_REMB_Unmarshal. Qed.
+Print Assumptions C04_source_REMB_Unmarshal.
+Theorem C04_src_remb_any_pair : forall r s e m, (s < 4294967296)%N -> 0 <= e < 64 -> 0 < m < 2 ^ 18 ->
+  exists bits,
+    GoSrcRemb.ReceiverEstimatedMaximumBitrate_Unmarshal r
+      ([n2b 143; n2b 206] ++ be 2 4 ++ be 4 s ++ [x00; x00; x00; x00] ++ [n2b 82; n2b 69; n2b 77; n2b 66]
+       ++ [n2b 0] ++ be 3 (Z.to_N (e * 2 ^ 18 + m)))
+    = Ok (GoSrcRemb.mkReceiverEstimatedMaximumBitrate (Z.of_N s) (Z.of_N bits) [])
+    /\ remb_floor bits = Some (m * 2 ^ e).
+Proof. exact source_C04_remb_any_pair. Qed.
+Print Assumptions C04_src_remb_any_pair.
+End C04_SourceRemb.
 Module C04_SourceSR.
 Import Proofs.SourceSR.
 Local Open Scope Z_scope.
